@@ -185,7 +185,10 @@ def l1_groups(tier):
     reps = {
         "I": [A("i"), ("bin", "+", L("n", 1), L("n", 2)), ("bin", "+", A("i"), L("n", 1)), ("bin", "*", B0("j"), L("n", 2))],
         "D": [A("d"), ("bin", "+", L("D", 0.5), L("D", 1.0)), ("bin", "*", B0("d"), L("D", 2.0))],
-        "B": [A("b"), ("bin", "<", A("i"), L("n", 2)), ("un", "!", B0("c"))],
+        "B": [A("b"), ("bin", "<", A("i"), L("n", 2)), ("un", "!", B0("c")),
+              # operands that branch themselves (several basic blocks)
+              ("bin", "||", B0("b"), ("rd", ("obj", "c0"), "b")), ("bin", "&&", B0("b"), ("rd", ("obj", "c0"), "c")),
+              ("tern", ("rd", ("obj", "c0"), "b"), B0("b"), B0("c"))],
         "S": [A("s"), ("bin", "+", L("s", "x"), L("s", "y")), ("bin", "+", B0("s"), L("s", "z"))],
     }
     ops2 = {"I": ["+", "-", "*", "/", "%", "<", "==", "&", "|", ">>"] if tier == "quick" else I_ops + ["<<", ">>"],
@@ -627,6 +630,95 @@ def shard_l3(shard, nshards, payload):
     return t
 
 
+# --------------------------------------------------------------------------- L4 statement forms
+
+def b_(st, k):
+    return st[k]
+
+
+L4_FORMS = [
+    # (label, binding value, properties read, reference function)
+    ("multi-declarator-let", "{ let x = a.i, y = x * 2; return y + x; }", ["a.i"], lambda st: st["a.i"] * 3),
+    ("multi-declarator-const", "{ const k = 2, m = k + a.i; return m * k; }", ["a.i"], lambda st: (2 + st["a.i"]) * 2),
+    ("multi-declarator-three", "{ let x = a.i, y = x + b0.i, z = y * x; return z - y; }", ["a.i", "b0.i"],
+     lambda st: (st["a.i"] + st["b0.i"]) * st["a.i"] - (st["a.i"] + st["b0.i"])),
+    ("multi-declarator-mixed-const-dynamic", "{ let k = 3, x = a.i + k, m = k * 2; return x * m; }", ["a.i"], lambda st: (st["a.i"] + 3) * 6),
+    ("declarator-shadowing", "{ let x = a.i; { let x = b0.i, y = x + 1; if (y > 1) { return y; } } return x; }", ["a.i", "b0.i"],
+     lambda st: st["b0.i"] + 1 if st["b0.i"] + 1 > 1 else st["a.i"]),
+    ("let-assigned-later", "{ let x = 0; if (a.b) { x = a.i; } else { x = b0.i; } let y = x; x = 5; return y * 10 + x; }",
+     ["a.b", "a.i", "b0.i"], lambda st: (st["a.i"] if st["a.b"] else st["b0.i"]) * 10 + 5),
+    ("declarator-uses-ternary", "{ let x = a.b ? a.i : b0.i, y = x + (a.b ? 1 : 2); return y; }", ["a.b", "a.i", "b0.i"],
+     lambda st: (st["a.i"] if st["a.b"] else st["b0.i"]) + (1 if st["a.b"] else 2)),
+    ("and-right-or", "(a.b && (b0.b || c0.b)) ? 1 : 0", ["a.b", "b0.b", "c0.b"], lambda st: int(st["a.b"] and (st["b0.b"] or st["c0.b"]))),
+    ("and-right-ternary", "(a.b && (c0.b ? b0.b : b0.c)) ? 1 : 0", ["a.b", "c0.b", "b0.b", "b0.c"],
+     lambda st: int(st["a.b"] and (st["b0.b"] if st["c0.b"] else st["b0.c"]))),
+    ("or-right-and", "(a.b || (b0.b && c0.b)) ? 1 : 0", ["a.b", "b0.b", "c0.b"], lambda st: int(st["a.b"] or (st["b0.b"] and st["c0.b"]))),
+    ("or-right-ternary", "(a.b || (c0.b ? b0.b : b0.c)) ? 1 : 0", ["a.b", "c0.b", "b0.b", "b0.c"],
+     lambda st: int(st["a.b"] or (st["b0.b"] if st["c0.b"] else st["b0.c"]))),
+    ("and-right-nested", "(a.b && (b0.b || (c0.b && a.c))) ? 1 : 0", ["a.b", "b0.b", "c0.b", "a.c"],
+     lambda st: int(st["a.b"] and (st["b0.b"] or (st["c0.b"] and st["a.c"])))),
+    ("and-left-branches", "((a.b || b0.b) && c0.b) ? 1 : 0", ["a.b", "b0.b", "c0.b"], lambda st: int((st["a.b"] or st["b0.b"]) and st["c0.b"])),
+    ("not-of-and-or", "!(a.b && (b0.b || c0.b)) ? 1 : 0", ["a.b", "b0.b", "c0.b"], lambda st: int(not (st["a.b"] and (st["b0.b"] or st["c0.b"])))),
+    ("ternary-condition-is-ternary", "((a.b ? b0.b : c0.b) ? a.i : b0.i)", ["a.b", "b0.b", "c0.b", "a.i", "b0.i"],
+     lambda st: st["a.i"] if (st["b0.b"] if st["a.b"] else st["c0.b"]) else st["b0.i"]),
+    ("logical-in-let-in-branch", "{ let r = 0; if (a.b) { let z = b0.b && (c0.b || a.c); r = z ? 1 : 2; } return r; }",
+     ["a.b", "b0.b", "c0.b", "a.c"], lambda st: (1 if (st["b0.b"] and (st["c0.b"] or st["a.c"])) else 2) if st["a.b"] else 0),
+    ("comparison-of-logicals", "((a.b && b0.b) == (c0.b || a.c)) ? 1 : 0", ["a.b", "b0.b", "c0.b", "a.c"],
+     lambda st: int((st["a.b"] and st["b0.b"]) == (st["c0.b"] or st["a.c"]))),
+    ("arith-of-ternaries", "(a.b ? a.i : 1) * (b0.b ? b0.i : 2) + (c0.b ? 1 : 0)", ["a.b", "a.i", "b0.b", "b0.i", "c0.b"],
+     lambda st: (st["a.i"] if st["a.b"] else 1) * (st["b0.i"] if st["b0.b"] else 2) + (1 if st["c0.b"] else 0)),
+]
+
+
+def shard_l4(shard, nshards, payload):
+    vd = vc.worker_vdrive()
+    t = vc.Tally()
+    pl = []
+    for k, (label, text, keys, fn) in enumerate(L4_FORMS):
+        if k % nshards != shard:
+            continue
+        src = DOC_HEAD + f"    VObj {{\n        id: t\n        ri: {text}\n    }}\n}}\n"
+        pid = f"X{k}"
+        res = vd.job({"id": k, "source": src, "modes": ["generate"], "type_name": pid})
+        g = res["modes"]["generate"]
+        if res.get("has_syntax_error"):
+            raise vc.MachineryError("L4 document does not parse:\n" + src)
+        if not vc.accepted(g, False):
+            t.violation("rejected-a-documented-statement-form:" + label, {"source": src, "diagnostics": g.get("diagnostics")})
+            continue
+        states = [st for _k, st in states_for(keys)]
+        pl.append(harness.Program(pid, g["ui"], g["header"], driver_for(keys, states, [("t", "ri", "I", None)]),
+                                  {"label": label, "source": src, "fn": fn, "states": states}))
+    res = harness.run_batch(pl, tag=f"c01l4-{shard}") if pl else {}
+    for p in pl:
+        r = res[p.pid]
+        m = p.meta
+        if r["compile_error"]:
+            t.violation("generated-code-does-not-compile", {"id": m["label"], "source": m["source"], "compile_error": r["compile_error"][-700:]})
+            continue
+        if r["crash"]:
+            t.violation("crash:generated-code-crashed-in-a-defined-state", {"id": m["label"], "source": m["source"], "crash": r["crash"][-600:]})
+            continue
+        got = {}
+        for state, value in r["lines"]:
+            si, tname = state.split(":")
+            got[(int(si), tname)] = value
+        outcomes = set()
+        for si, st in enumerate(m["states"]):
+            want = m["fn"](st)
+            t.inc("evaluations")
+            outcomes.add(want)
+            if (si, "*") in got:
+                t.violation(f"exception:{got[(si, '*')].split(':')[0]}", {"id": m["label"], "source": m["source"], "state": st})
+            elif got.get((si, "t")) != str(want):
+                t.violation(f"value:statement-form:{m['label']}", {"source": m["source"], "state": st, "expected": want, "observed": got.get((si, "t"))})
+        t.inc("programs")
+        if len(outcomes) >= 2:
+            t.inc("programs_with_two_or_more_outcomes")
+        t.distinct.add(m["source"])
+    return t
+
+
 def main(tier, t0):
     vc.ensure_vdrive()
     import qtmock
@@ -634,7 +726,8 @@ def main(tier, t0):
     t1 = vc.merge_tallies(vc.run_sharded(shard_l1, {"tier": tier}))
     t2 = vc.merge_tallies(vc.run_sharded(shard_l2, {"tier": tier}))
     t3 = vc.merge_tallies(vc.run_sharded(shard_l3, {"tier": tier}))
-    tally = vc.Tally().merge(t1).merge(t2).merge(t3)
+    t4 = vc.merge_tallies(vc.run_sharded(shard_l4, {"tier": tier}))
+    tally = vc.Tally().merge(t1).merge(t2).merge(t3).merge(t4)
     c = tally.counts
     cov = {
         "evaluations": c.get("evaluations", 0),
